@@ -71,8 +71,10 @@ def _validate_valid_identifiers(nodes: dict[str, HyperNode]) -> None:
     from hypergraph.nodes.graph_node import GraphNode
 
     for node in nodes.values():
-        # Skip GraphNode - it uses graph name validation (allows hyphens)
+        # GraphNode names use graph name validation (allows hyphens); their
+        # output names are ordinary value names and are checked like any other
         if isinstance(node, GraphNode):
+            _validate_output_identifiers(node)
             continue
         if not node.name.isidentifier():
             raise GraphConfigError(
@@ -88,18 +90,21 @@ def _validate_valid_identifiers(nodes: dict[str, HyperNode]) -> None:
                 f"How to fix:\n"
                 f"  Use a different name (e.g., '{node.name}_node' or '{node.name}_func')"
             )
-        for output in node.outputs:
-            if not output.isidentifier():
-                raise GraphConfigError(
-                    f"Invalid output name: '{output}' (from node '{node.name}')\n\n  -> Output names must be valid Python identifiers"
-                )
-            if keyword.iskeyword(output):
-                raise GraphConfigError(
-                    f"Invalid output name: '{output}' (from node '{node.name}')\n\n"
-                    f"  -> '{output}' is a Python keyword and cannot be used\n\n"
-                    f"How to fix:\n"
-                    f"  Use a different name (e.g., '{output}_value' or '{output}_result')"
-                )
+        _validate_output_identifiers(node)
+
+
+def _validate_output_identifiers(node: HyperNode) -> None:
+    """Output names must be valid Python identifiers (not keywords)."""
+    for output in node.outputs:
+        if not output.isidentifier():
+            raise GraphConfigError(f"Invalid output name: '{output}' (from node '{node.name}')\n\n  -> Output names must be valid Python identifiers")
+        if keyword.iskeyword(output):
+            raise GraphConfigError(
+                f"Invalid output name: '{output}' (from node '{node.name}')\n\n"
+                f"  -> '{output}' is a Python keyword and cannot be used\n\n"
+                f"How to fix:\n"
+                f"  Use a different name (e.g., '{output}_value' or '{output}_result')"
+            )
 
 
 def _validate_no_namespace_collision(nodes: dict[str, HyperNode]) -> None:
